@@ -96,6 +96,13 @@ func solve(dir string, o *Obligation, timeoutS int, twoSolvers bool) *SolveResul
 		return &SolveResult{Status: "error", Output: err.Error()}
 	}
 	res := &SolveResult{File: file}
+	if o.Cover {
+		// a cover only needs "not refuted": quantified hypotheses rarely give the solver a model, so do not wait long
+		status, out, ms := runSolver(solvers[0], file, 2)
+		res.Status, res.Backend, res.Ms, res.Output = status, solvers[0].name, ms, out
+		res.Tried = append(res.Tried, fmt.Sprintf("%s:%s:%.0fms", solvers[0].name, status, ms))
+		return res
+	}
 	first := timeoutS
 	if first > 8 && !o.Cover {
 		first = timeoutS / 2
